@@ -9,7 +9,7 @@ import time
 
 JAR = "/opt/veriftools/tla/tla2tools.jar"
 SPEC = os.path.join(os.path.dirname(os.path.dirname(os.path.abspath(__file__))), "spec")
-WORK = os.path.join(os.path.dirname(os.path.dirname(os.path.abspath(__file__))), ".work")
+WORK = os.path.join(os.path.dirname(os.path.dirname(os.path.abspath(__file__))), ".work", "p%d" % os.getpid())   # per process: checks may run concurrently
 
 
 class TlcError(Exception):
